@@ -38,9 +38,10 @@ Remove / Create of the followed name, after the operation, in order, without que
 Go scheduler is fair to the fsnotify goroutine and the reader (liveness statements are of the form
 "some run of kernel goroutine + reader reaches …" together with a measure that every such step
 decreases).  Out of the model: a writer that keeps appending to a file after it was unlinked or
-renamed away.  A file renamed ONTO the followed path is a KNOWN FINDING for -F with the notify reader
-(section "a file renamed ONTO the followed path").  Rotation by rename (the followed file moved away) is
-in the model since the `fix:` commit 4cc14c1 (section "rotation by rename").  In-place truncation (copytruncate) is outside the property; what
+renamed away.  A file renamed ONTO the followed path (atomic replace) is in the model since the `fix:` commit
+f4a9570 (section "a file renamed ONTO the followed path"; `Create` raises the delete signal too with -F).
+Rotation by rename (the followed file moved away) is in the model since the `fix:` commit 4cc14c1 (section
+"rotation by rename").  In-place truncation (copytruncate) is outside the property; what
 the readers do then is modelled by the extended systems of `Rare.Model.C15Trunc` and recorded in the
 section "in-place truncation" below.
 -/
@@ -159,7 +160,7 @@ theorem unread_eventually_delivered (c0 : List β) (tail reopen : Bool) {s : NSt
   have hi := ninv_reach (capW_ok reopen) (capD_ok reopen) (some c0) tail hr
   have hne : s.rd ≠ .ended := by
     intro he; have := (hi.ended he).2.1; omega
-  exact eventually_delivered (capW_ok reopen) (capD_ok reopen) hi hrm h hf hu hne
+  exact eventually_delivered (capW_ok reopen) (capD_ok reopen) hi rfl hrm h hf hu hne
 
 /-- Every step of the fsnotify goroutine or the reader delivers a byte or decreases the measure
     `nmu`: between two deliveries they take at most `nmu` steps, whatever the schedule. -/
@@ -295,7 +296,10 @@ theorem reopen_eventually_opens_new (c0 : Option (List β)) (tail : Bool) {s : N
     · exact Or.inl ⟨x, hf, hx⟩
     · have : s.fs.path ≠ some x.ino := by
         intro he; rw [hp] at he; simp only [Option.some.injEq] at he; exact hx he.symm
-      exact Or.inr (Or.inr (Or.inr (hi.gone x hf this)))
+      rcases hi.gone x hf this with h1 | h1 | ⟨_, h1⟩
+      · exact Or.inr (Or.inr (Or.inr (Or.inl h1)))
+      · exact Or.inr (Or.inr (Or.inr (Or.inr h1)))
+      · exact Or.inr (Or.inr (Or.inl h1))
 
 theorem reopen_steps_terminate {w : Who} {s s' : NSt β} (hw : w ≠ .writer) (hs : NStep (srcN true) w s s')
     (j : Nat) (hp : s.fs.path = some j) : onPath s' j ∨ nmuP s' < nmuP s :=
@@ -1219,39 +1223,96 @@ theorem plain_rename_not_followed_counterexample :
     (.base (.noise _))) (.base (.dispatch _ .other [] rfl))
   exact ⟨_, hr, rfl, rfl, rfl, rfl, rfl, rfl, rfl, rfl⟩
 
-/-! ## a file renamed ONTO the followed path (atomic replace) – KNOWN FINDING -/
+/-! ## a file renamed ONTO the followed path (atomic replace: write `f.tmp`, `rename(f.tmp, f)`) -/
 
-/- Full statement (what the property asks of re-open follow, and what holds for removal + re-creation and for
-   rotation by rename – `reopen_eventually_opens_new`, `reopen_follows_after_rename`):
-     for every reachable state of the notify system with -F and every inode `j` at the path, some (every) run
-     of the fsnotify goroutine and the reader ends with `j` open.
-   It does NOT hold when the writer may also replace the file by a rename onto the path. -/
+/-- **reopen_follows_new_file.**  Re-open follow (-F), notify reader as configured in /repo, EVERY history of
+    the full writer – append, remove, create, other events, rename away, and a new file renamed ONTO the path
+    (one `Create` event, no `Remove`) – and every interleaving with the fsnotify goroutine and the reader:
+    whenever a file `j` is at the path, the reader has it open or a signal that makes it look is pending
+    (a token, or an event the goroutine has not dispatched yet), and with a silent writer some run of goroutine
+    and reader ends with `j` open (`reopen_steps_terminate`: every run does).  Before the `fix:` commit
+    f4a9570 this failed for an atomic replace: `Create` raised only the write signal, whose handler re-opens
+    only when no file is open (`replace.case` of the corpus; the seeded change `C15-create-no-delete`). -/
+theorem reopen_follows_new_file (c0 : Option (List β)) (tail : Bool) {s : NSt β}
+    (hr : NReachO (srcN true) (ninit c0 tail) s) (j : Nat) (hp : s.fs.path = some j) :
+    (onPath s j ∨ 0 < s.pw ∨ Ev.create ∈ s.evq ∨ 0 < s.pd ∨ Ev.remove ∈ s.evq) ∧
+    ∃ s', NSysReach (srcN true) s s' ∧ onPath s' j := by
+  have hi := ninvO_reach (capW_ok true) (capD_ok true) rfl c0 tail hr
+  refine ⟨?_, eventually_reopened_aux (capW_ok true) (capD_ok true) rfl j _ s (Nat.le_refl _) hi hp⟩
+  cases hf : s.f with
+  | none => exact Or.inr (hi.fresh rfl hf j hp)
+  | some x =>
+    by_cases hx : x.ino = j
+    · exact Or.inl ⟨x, hf, hx⟩
+    · have : s.fs.path ≠ some x.ino := by
+        intro he; rw [hp] at he; simp only [Option.some.injEq] at he; exact hx he.symm
+      rcases hi.gone x hf this with h1 | h1 | ⟨_, h1⟩
+      · exact Or.inr (Or.inr (Or.inr (Or.inl h1)))
+      · exact Or.inr (Or.inr (Or.inr (Or.inr h1)))
+      · exact Or.inr (Or.inr (Or.inl h1))
 
-/-- **reopen_follows_new_file_partial.**  The statement for the histories without an atomic replace (append,
-    remove, create, rename-away, other events): the file at the path is eventually open. -/
-theorem reopen_follows_new_file_partial (c0 : Option (List β)) (tail : Bool) {s : NSt β}
-    (hr : NReachR (srcN true) (ninit c0 tail) s) (j : Nat) (hp : s.fs.path = some j) :
-    ∃ s', NSysReach (srcN true) s s' ∧ onPath s' j :=
-  reopen_follows_after_rename c0 tail hr j hp
+/-- **reopen_any_rotation_exactly_once.**  The safety half for the same histories (removal + re-creation,
+    rotation by rename, atomic replace, in any mix): `Read` never ends, the delivered stream is one segment per
+    file handle, every file opened after the start is read from its beginning (only the initial handle may start
+    elsewhere: `--tail`), files are opened in creation order and none twice, every handle is within its file, and
+    the reader is never blocked in front of unread bytes of the file it has open. -/
+theorem reopen_any_rotation_exactly_once (c0 : Option (List β)) (tail : Bool) {s : NSt β}
+    (hr : NReachO (srcN true) (ninit c0 tail) s) :
+    s.rd ≠ .ended ∧
+    s.delivered = segments s.fs.content (s.hist ++ s.f.toList) ∧
+    (∀ h ∈ s.hist ++ s.f.toList, h.start = 0 ∨ (h.ino = 0 ∧ h.start = start0 c0 tail)) ∧
+    ((s.hist ++ s.f.toList).map (·.ino)).Pairwise (· < ·) ∧
+    (∀ h ∈ s.hist ++ s.f.toList, h.start ≤ h.pos ∧ h.pos ≤ (s.fs.content h.ino).length) ∧
+    (∀ h, s.f = some h → unread s.fs h ≠ [] → 0 < s.pw ∨ Ev.write ∈ s.evq ∨ s.rd ≠ .selecting) := by
+  have hi := ninvO_reach (capW_ok true) (capD_ok true) rfl c0 tail hr
+  refine ⟨?_, hi.core.deliv, hi.starts, hi.incr, fun x hx => ⟨(hi.core.bounds x hx).1, hi.strong x hx⟩, hi.wake⟩
+  intro he
+  have := (hi.ended he).1
+  cases this
 
-/-- **reopen_follows_new_file_counterexample.**  With an atomic replace the statement fails: `[1]` delivered,
-    a new file `[2,3]` renamed onto the path (one `Create` event, no `Remove`): the write signal finds a file
-    open and does nothing; the reader ends up in its `select` with nothing pending, holding the unlinked file –
-    and NO run of goroutine and reader from there ever opens the file that is at the path. -/
-theorem reopen_follows_new_file_counterexample :
-    ∃ (s : NSt Nat) (j : Nat), NReachO (srcN true) (ninit (some [1]) false) s ∧ s.fs.path = some j ∧
-      s.fs.content j = [2, 3] ∧ s.delivered = [1] ∧
-      ∀ s', NSysReach (srcN true) s s' → ¬ onPath s' j := by
+/-- The system without rename and replace is part of the full one (so the two theorems above speak about
+    every state the earlier sections speak about). -/
+theorem full_writer_extends (cfg : NCfg) (n0 : NSt β) {s : NSt β} (hr : NReach cfg n0 s) : NReachO cfg n0 s := by
+  induction hr with
+  | refl => exact .refl
+  | step _ hs ih => exact .step ih (.base (.base hs))
+
+/-- Non-vacuity, the run that used to go wrong (the known finding of round 4): `[1]` delivered, a new file
+    `[2,3]` renamed onto the path – one `Create` event, which now raises BOTH signals; the write signal finds a
+    file open and does nothing, the delete signal finds another file at the path: the reader re-opens and
+    delivers `[2,3]` from the beginning. -/
+example : ∃ s : NSt Nat, NReachO (srcN true) (ninit (some [1]) false) s ∧ s.delivered = [1, 2, 3] ∧
+    s.f = some ⟨1, 0, 2⟩ ∧ s.hist = [⟨0, 0, 1⟩] ∧ s.fs.path = some 1 := by
   have hr : NReachO (srcN true) (ninit (some [(1 : Nat)]) false) _ :=
+    .step (.step (.step (.step (.step (.step (.step (.step
+    (.refl (s0 := ninit (some [(1 : Nat)]) false))
+    (.base (.base (.readSome _ ⟨0, 0, 0⟩ 1 rfl rfl (by decide) (by decide)))))
+    (.replace _ 0 [2, 3] rfl)) (.base (.base (.dispatch _ .create [] rfl))))
+    (.base (.base (.readEmpty _ ⟨0, 0, 1⟩ rfl rfl rfl)))) (.base (.base (.recvW _ rfl (by decide)))))
+    (.base (.base (.readEmpty _ ⟨0, 0, 1⟩ rfl rfl rfl)))) (.base (.base (.recvD _ rfl (by decide) rfl))))
+    (.base (.base (.readSome _ ⟨1, 0, 0⟩ 2 rfl rfl (by decide) (by decide))))
+  exact ⟨_, hr, rfl, rfl, rfl, rfl⟩
+
+/-- **plain_replace_not_followed_counterexample** (expected behaviour of plain -f, recorded; `tail -f` does the
+    same – it follows the descriptor).  Without re-open nothing tells the reader that its file was unlinked by
+    the rename: `[1]` delivered, `[2,3]` renamed onto the path – the reader is back in its `select` with nothing
+    pending, still holds the unlinked file, the stream is `[1]`, has not ended, and NO run of goroutine and
+    reader from there changes that. -/
+theorem plain_replace_not_followed_counterexample :
+    ∃ (s : NSt Nat) (j : Nat), NReachO (srcN false) (ninit (some [1]) false) s ∧ s.fs.path = some j ∧
+      s.fs.content j = [2, 3] ∧ s.delivered = [1] ∧ s.rd = .selecting ∧
+      ∀ s', NSysReach (srcN false) s s' → ¬ onPath s' j ∧ s'.rd ≠ .ended ∧ s'.delivered = [1] := by
+  have hr : NReachO (srcN false) (ninit (some [(1 : Nat)]) false) _ :=
     .step (.step (.step (.step (.step (.step
     (.refl (s0 := ninit (some [(1 : Nat)]) false))
-    (.base (.readSome _ ⟨0, 0, 0⟩ 1 rfl rfl (by decide) (by decide))))
-    (.replace _ 0 [2, 3] rfl)) (.base (.dispatch _ .create [] rfl)))
-    (.base (.readEmpty _ ⟨0, 0, 1⟩ rfl rfl rfl))) (.base (.recvW _ rfl (by decide))))
-    (.base (.readEmpty _ ⟨0, 0, 1⟩ rfl rfl rfl))
-  refine ⟨_, 1, hr, rfl, rfl, rfl, ?_⟩
+    (.base (.base (.readSome _ ⟨0, 0, 0⟩ 1 rfl rfl (by decide) (by decide)))))
+    (.replace _ 0 [2, 3] rfl)) (.base (.base (.dispatch _ .create [] rfl))))
+    (.base (.base (.readEmpty _ ⟨0, 0, 1⟩ rfl rfl rfl)))) (.base (.base (.recvW _ rfl (by decide)))))
+    (.base (.base (.readEmpty _ ⟨0, 0, 1⟩ rfl rfl rfl)))
+  refine ⟨_, 1, hr, rfl, rfl, rfl, rfl, ?_⟩
   intro s' hs'
   rw [quiet_stays ⟨rfl, rfl, rfl, rfl⟩ hs']
+  refine ⟨?_, by simp, rfl⟩
   rintro ⟨x, hx, hino⟩
   have hx' : some (⟨0, 0, 1⟩ : Handle) = some x := hx
   cases hx'
